@@ -1,4 +1,5 @@
 import BtcModel.Tx
+import BtcModel.TxStrict
 import BtcModel.Block
 import BtcModel.Prim.Sha256
 import BtcModel.Prim.Ripemd160
@@ -75,7 +76,11 @@ def handleTx (_D : Dev) : List String → Option String
           !(stdStack st) && (i.scriptSig.isEmpty || (i.scriptSig.take 3 == [0x22, 0x00, 0x20] && i.scriptSig.length == 35)
                              || (i.scriptSig.take 3 == [0x16, 0x00, 0x14] && i.scriptSig.length == 23))
         s!"f02={hit} nested_mismatch={mism} witness_nonstd={nonstd}"
-    pure (r ++ " | " ++ r ++ " | " ++ trig)
+    -- the strict reader of the decode-then-encode theorems (C06 T7-T9): accepts = canonical counts throughout
+    let strictV := match parseTxS b with
+      | none => "rej"
+      | some x => if parseTx b == some x then "acc" else "acc-differs"
+    pure (r ++ " | " ++ r ++ " | " ++ trig ++ " strictrd=" ++ strictV)
   | ["block_parse", h] => do
     let b ← ofHex h
     let r := match parseBlock b with
